@@ -105,11 +105,75 @@ func (bc *balanceChecker) number(st *pathState, v ssa.Value) vn {
 		bc.inherited[n] = true
 		return n
 	case *ssa.Call:
+		if b := bufferOfLen(x, nil, nil); b != "" {
+			return vn("buflen:" + b)
+		}
 		if isLenCall(x) {
 			return vn("len(" + string(bc.number(st, x.Call.Args[0])) + ")")
 		}
 	}
 	return vn("v:" + v.Name())
+}
+
+// bufferOfLen: v is the length of a bytes.Buffer / strings.Builder local —
+// b.Len(), len(b.Bytes()), len(b.String()), or len(x) where x may be one of
+// those (phi). Returns the buffer's name, "" otherwise. Inside a closure the
+// buffer is a free variable: fvs/binds map it back to the parent's local.
+func bufferOfLen(call *ssa.Call, fvs []*ssa.FreeVar, binds []ssa.Value) string {
+	bufName := func(ptr ssa.Value) string {
+		switch p := ptr.(type) {
+		case *ssa.Alloc:
+			return p.Name()
+		case *ssa.FreeVar:
+			for i, f := range fvs {
+				if f == p && i < len(binds) {
+					if al, ok := binds[i].(*ssa.Alloc); ok {
+						return al.Name()
+					}
+				}
+			}
+		}
+		return ""
+	}
+	isBufMethod := func(c *ssa.Call, names ...string) bool {
+		cal := c.Call.StaticCallee()
+		if cal == nil || len(c.Call.Args) == 0 {
+			return false
+		}
+		fn := fullName(cal)
+		for _, n := range names {
+			if fn == "(*bytes.Buffer)."+n || fn == "(*strings.Builder)."+n {
+				return true
+			}
+		}
+		return false
+	}
+	if isBufMethod(call, "Len") {
+		return bufName(call.Call.Args[0])
+	}
+	if !isLenCall(call) {
+		return ""
+	}
+	var from func(v ssa.Value, depth int) string
+	from = func(v ssa.Value, depth int) string {
+		if depth > 4 {
+			return ""
+		}
+		switch x := stripConv(v).(type) {
+		case *ssa.Call:
+			if isBufMethod(x, "Bytes", "String") {
+				return bufName(x.Call.Args[0])
+			}
+		case *ssa.Phi:
+			for _, e := range x.Edges {
+				if b := from(e, depth+1); b != "" {
+					return b
+				}
+			}
+		}
+		return ""
+	}
+	return from(call.Call.Args[0], 0)
 }
 
 func amountOf(call ssa.CallInstruction) []ssa.Value {
@@ -147,6 +211,11 @@ func (bc *balanceChecker) applyClosure(st *pathState, clos *ssa.Function, binds 
 		for _, a := range amountOf(call) {
 			a = stripConv(a)
 			n := vn("closure:" + a.Name())
+			if ac, ok := a.(*ssa.Call); ok {
+				if b := bufferOfLen(ac, clos.FreeVars, binds); b != "" {
+					n = vn("buflen:" + b)
+				}
+			}
 			if u, ok := a.(*ssa.UnOp); ok && u.Op == token.MUL {
 				if fv, ok := u.X.(*ssa.FreeVar); ok {
 					for i, f := range clos.FreeVars {
